@@ -75,7 +75,9 @@ pub fn old_edge_record<'a>(h: &'a History, up: &str, down: &str, ambiguous: &mut
 
 /// Reference model of a failure-free evaluation: which jobs are up to date (C03's
 /// statement transcribed) and which are executed (C04's statement transcribed).
-pub fn expected(g: &Graph, h: &History, disk: &BTreeMap<String, String>, mode: CmpMode) -> Expect {
+/// `tainted`: jobs whose last attempt failed or was cut short by an abort while running ("no failed
+/// attempt has touched it since" - known to the driver, independent of what the engine recorded).
+pub fn expected(g: &Graph, h: &History, disk: &BTreeMap<String, String>, mode: CmpMode, tainted: &BTreeSet<String>) -> Expect {
     let consumed = g.consumed();
     let mut ambiguous = false;
     let mut used_renamed = BTreeSet::new();
@@ -87,6 +89,9 @@ pub fn expected(g: &Graph, h: &History, disk: &BTreeMap<String, String>, mode: C
         let useless = g.useless_ephemeral(&n.id);
         let mut ok = h.contains_key(&n.id) && h.get(&format!("{}!!!", n.id)).map(|x| x.as_str()) == Some(g.input_names(&n.id).as_str());
         if n.kind == JobKind::Output && !n.outs.iter().all(|o| disk.contains_key(o)) {
+            ok = false;
+        }
+        if tainted.contains(&n.id) {
             ok = false;
         }
         for e in g.ups(&n.id) {
